@@ -1729,68 +1729,111 @@ Proof.
 Qed.
 
 (* ------------------------------------------------------------------ *)
+(* no operation touches the apply-size limit                           *)
+
+Lemma bind_ok {A B} (r : res A) (f : A -> res B) b : bind r f = Ok b -> exists a, r = Ok a /\ f a = Ok b.
+Proof. destruct r; cbn; intros H; try discriminate. eauto. Qed.
+
+Ltac ok_inv :=
+  repeat match goal with
+  | H : bind _ _ = Ok _ |- _ => apply bind_ok in H as (? & ? & H)
+  | H : Ok _ = Ok _ |- _ => inversion H; clear H; subst
+  | H : (if ?c then _ else _) = Ok _ |- _ => destruct c
+  | H : Fail _ = Ok _ |- _ => discriminate H
+  | H : Panic _ = Ok _ |- _ => discriminate H
+  | H : (let '(_, _) := ?x in _) = Ok _ |- _ => destruct x
+  | H : match ?x with _ => _ end = Ok _ |- _ => destruct x
+  end.
+
+Lemma step_limit w o w' : step w o = Ok w' -> w_limit w' = w_limit w.
+Proof.
+  intros H. destruct o; cbn [step] in H.
+  - unfold w_append in H. ok_inv. reflexivity.
+  - unfold w_replicate in H. ok_inv; reflexivity.
+  - unfold w_commit_to in H. ok_inv. reflexivity.
+  - unfold w_get_update in H. ok_inv. reflexivity.
+  - unfold w_persist in H. ok_inv. reflexivity.
+  - unfold w_commit in H. ok_inv; reflexivity.
+  - unfold w_restore in H. ok_inv; reflexivity.
+  - unfold w_compact in H. ok_inv; reflexivity.
+Qed.
+
+(* ------------------------------------------------------------------ *)
 (* induction over operation sequences                                  *)
 
-(* the operations whose preservation of R is proved here; for the others
-   (Replicate, GetUpdate/Persist/Commit, Restore, Compact) preservation is
-   checked by the differential run and the monitor only *)
-Definition core_op (o : op) : bool :=
-  match o with OAppend _ | OCommitTo _ => true | _ => false end.
-
-Lemma step_core limit w sp o : R w sp -> core_op o = true -> wf_op sp o = true ->
-  exists w', step w o = Ok w' /\ R w' (sp_step limit sp o).
+(* every constructor of [op] has its step lemma *)
+Lemma step_all limit w sp o : R w sp -> w_limit w = limit -> wf_op sp o = true ->
+  exists w', step w o = Ok w' /\ R w' (sp_step limit sp o) /\ w_limit w' = limit.
 Proof.
-  intros HR Hc Hwf. destruct o; try discriminate; cbn [sp_step].
-  - apply step_append; auto.
-  - apply step_commit_to; auto.
+  intros HR Hl Hwf.
+  assert (G : (exists w', step w o = Ok w' /\ R w' (sp_step limit sp o)) ->
+              exists w', step w o = Ok w' /\ R w' (sp_step limit sp o) /\ w_limit w' = limit).
+  { intros (w' & Hs & HR'). exists w'. split; [exact Hs|]. split; [exact HR'|].
+    rewrite (step_limit _ _ _ Hs). exact Hl. }
+  destruct o; cbn [sp_step].
+  - apply G. apply step_append; auto.
+  - apply G. destruct (step_replicate w sp li lt commit ents HR Hwf) as (w' & A & B & _). eauto.
+  - apply G. apply step_commit_to; auto.
+  - apply step_get_update; auto.
+  - apply G. destruct (step_persist w sp HR Hwf) as (w' & A & B & _). eauto.
+  - apply G. destruct (step_commit w sp HR Hwf) as (w' & A & B & _). eauto.
+  - apply G. apply step_restore; auto.
+  - apply G. destruct (step_compact w sp k HR Hwf) as (w' & A & B & _). eauto.
 Qed.
 
-Lemma run_core limit ops : forall w sp, R w sp -> forallb core_op ops = true ->
+Lemma run_all limit ops : forall w sp, R w sp -> w_limit w = limit ->
   wf_ops limit sp ops = true ->
-  exists w', run w ops = Ok w' /\ R w' (sp_run limit sp ops).
+  exists w', run w ops = Ok w' /\ R w' (sp_run limit sp ops) /\ w_limit w' = limit.
 Proof.
-  induction ops as [|o ops IH]; intros w sp HR Hc Hwf.
-  - exists w. split; [reflexivity|exact HR].
-  - cbn [forallb] in Hc. apply andb_true_iff in Hc as [Hc1 Hc2].
-    cbn [wf_ops] in Hwf. apply andb_true_iff in Hwf as [Hw1 Hw2].
-    destruct (step_core limit w sp o HR Hc1 Hw1) as (w1 & Hs & HR1).
-    destruct (IH w1 _ HR1 Hc2 Hw2) as (w' & Hr & HR').
-    exists w'. split; [|exact HR']. cbn [run]. rewrite Hs. cbn [bind]. exact Hr.
+  induction ops as [|o ops IH]; intros w sp HR Hl Hwf.
+  - exists w. split; [reflexivity|]. split; [exact HR|exact Hl].
+  - cbn [wf_ops] in Hwf. apply andb_true_iff in Hwf as [Hw1 Hw2].
+    destruct (step_all limit w sp o HR Hl Hw1) as (w1 & Hs & HR1 & Hl1).
+    destruct (IH w1 _ HR1 Hl1 Hw2) as (w' & Hr & HR' & Hl').
+    exists w'. split; [|split; [exact HR'|exact Hl']]. cbn [run]. rewrite Hs. cbn [bind]. exact Hr.
 Qed.
 
-Theorem logview_refines_partial_proved : forall mi mt ents c limit ops,
-  wf_init mi mt ents c = true -> forallb core_op ops = true ->
+Lemma run_init limit mi mt ents c ops :
+  wf_init mi mt ents c = true -> wf_ops limit (sp_init mi mt ents c) ops = true ->
+  exists w', run (w_init mi mt ents c limit) ops = Ok w' /\ R w' (sp_run limit (sp_init mi mt ents c) ops)
+             /\ w_limit w' = limit.
+Proof. intros Hi Hwf. apply run_all; auto. apply R_init; auto. Qed.
+
+(* for ALL well-formed operation sequences (every constructor of op), from every
+   well-formed restart state: the run succeeds and all views equal the logical log's *)
+Theorem logview_refines_proved : forall mi mt ents c limit ops,
+  wf_init mi mt ents c = true ->
   wf_ops limit (sp_init mi mt ents c) ops = true ->
   exists w', run (w_init mi mt ents c limit) ops = Ok w' /\
              views_eq w' (sp_run limit (sp_init mi mt ents c) ops).
 Proof.
-  intros mi mt ents c limit ops Hi Hc Hwf.
-  destruct (run_core limit ops _ _ (R_init mi mt ents c limit Hi) Hc Hwf) as (w' & Hr & HR).
+  intros mi mt ents c limit ops Hi Hwf.
+  destruct (run_init limit mi mt ents c ops Hi Hwf) as (w' & Hr & HR & _).
   exists w'. split; [exact Hr|apply R_views; exact HR].
 Qed.
 
-Theorem err_unreachable_under_wf_partial_proved : forall mi mt ents c limit ops,
-  wf_init mi mt ents c = true -> forallb core_op ops = true ->
+Theorem err_unreachable_under_wf_proved : forall mi mt ents c limit ops,
+  wf_init mi mt ents c = true ->
   wf_ops limit (sp_init mi mt ents c) ops = true ->
   (forall t, run (w_init mi mt ents c limit) ops <> Panic t) /\
   (forall e, run (w_init mi mt ents c limit) ops <> Fail e).
 Proof.
-  intros mi mt ents c limit ops Hi Hc Hwf.
-  destruct (run_core limit ops _ _ (R_init mi mt ents c limit Hi) Hc Hwf) as (w' & Hr & _).
+  intros mi mt ents c limit ops Hi Hwf.
+  destruct (run_init limit mi mt ents c ops Hi Hwf) as (w' & Hr & _).
   rewrite Hr. split; intros; discriminate.
 Qed.
 
 (* whatever counts as saved is in the store in its current version *)
-Theorem saved_entries_persisted_partial_proved : forall mi mt ents c limit ops w',
-  wf_init mi mt ents c = true -> forallb core_op ops = true ->
+Theorem saved_entries_persisted_proved : forall mi mt ents c limit ops w',
+  wf_init mi mt ents c = true ->
   wf_ops limit (sp_init mi mt ents c) ops = true ->
   run (w_init mi mt ents c limit) ops = Ok w' ->
   let sp' := sp_run limit (sp_init mi mt ents c) ops in
   forall i, sp_mi sp' < i -> i <= im_saved (el_im (w_el w')) ->
     exists e, st_get (w_st w') i = Some e /\ sp_get sp' i = Some e /\ e_index e = i.
 Proof.
-  intros mi mt ents c limit ops w' Hi Hc Hwf Hrun sp' i H1 H2.
-  destruct (run_core limit ops _ _ (R_init mi mt ents c limit Hi) Hc Hwf) as (w'' & Hr & HR).
+  intros mi mt ents c limit ops w' Hi Hwf Hrun sp' i H1 H2.
+  destruct (run_init limit mi mt ents c ops Hi Hwf) as (w'' & Hr & HR & _).
   rewrite Hrun in Hr. inversion Hr; subst w''. fold sp' in HR.
   pose proof (r_si _ _ HR) as HS. rewrite (r_s _ _ HR) in H2.
   pose proof (cover_ge_saved _ HS). pose proof (si_sl _ HS).
@@ -1798,3 +1841,31 @@ Proof.
   exists e. rewrite (r_st _ _ HR) by lia. repeat split; auto.
   apply (sp_get_some _ _ _ HS Ge).
 Qed.
+
+(* the earlier, weaker statements (appends and commitTo only) stay visible: they are
+   now corollaries *)
+Definition core_op (o : op) : bool :=
+  match o with OAppend _ | OCommitTo _ => true | _ => false end.
+
+Theorem logview_refines_partial_proved : forall mi mt ents c limit ops,
+  wf_init mi mt ents c = true -> forallb core_op ops = true ->
+  wf_ops limit (sp_init mi mt ents c) ops = true ->
+  exists w', run (w_init mi mt ents c limit) ops = Ok w' /\
+             views_eq w' (sp_run limit (sp_init mi mt ents c) ops).
+Proof. intros; apply logview_refines_proved; auto. Qed.
+
+Theorem err_unreachable_under_wf_partial_proved : forall mi mt ents c limit ops,
+  wf_init mi mt ents c = true -> forallb core_op ops = true ->
+  wf_ops limit (sp_init mi mt ents c) ops = true ->
+  (forall t, run (w_init mi mt ents c limit) ops <> Panic t) /\
+  (forall e, run (w_init mi mt ents c limit) ops <> Fail e).
+Proof. intros; apply err_unreachable_under_wf_proved; auto. Qed.
+
+Theorem saved_entries_persisted_partial_proved : forall mi mt ents c limit ops w',
+  wf_init mi mt ents c = true -> forallb core_op ops = true ->
+  wf_ops limit (sp_init mi mt ents c) ops = true ->
+  run (w_init mi mt ents c limit) ops = Ok w' ->
+  let sp' := sp_run limit (sp_init mi mt ents c) ops in
+  forall i, sp_mi sp' < i -> i <= im_saved (el_im (w_el w')) ->
+    exists e, st_get (w_st w') i = Some e /\ sp_get sp' i = Some e /\ e_index e = i.
+Proof. intros mi mt ents c limit ops w' Hi _ Hwf Hrun. apply saved_entries_persisted_proved; auto. Qed.
